@@ -33,12 +33,42 @@ def G(pid, mode, fn, m, n, props, kind="owned", bw=None, extra=None, timeout=900
                  extra_cflags=[], native_tus=t)
 
 
+def prows_groups(tier, props=("C02", "C12", "C09", "C11")):
+    """stage contracts of the M4RI elimination: mzd_process_rows (1 table, incl. the k == 1 path) and mzd_process_rows2..6"""
+    from checks.shapes import shape_str
+    gs = []
+    q = tier == "quick"
+    # (NT, K, nc, ccol, kind, rows lo, hi)
+    cases = [(1, 1, 70, 3, "owned", 0, 3), (1, 1, 130, 64, "view1", 1, 3), (1, 3, 70, 60, "owned", 0, 3), (1, 5, 200, 70, "view1", 0, 2),
+             (2, 2, 70, 5, "owned", 0, 3), (2, 5, 130, 62, "view1", 0, 3), (3, 3, 70, 0, "owned", 0, 3), (3, 7, 130, 60, "view1", 1, 3),
+             (4, 4, 70, 10, "owned", 0, 3), (4, 9, 130, 61, "view1", 0, 2), (5, 5, 70, 1, "owned", 0, 3), (5, 11, 130, 58, "view0", 0, 2),
+             (6, 6, 70, 20, "owned", 0, 3), (6, 13, 130, 57, "view1", 0, 2)]
+    if not q:
+        # measured: chunks of 9-10 bits (k = 33..40 with 4-6 tables, 512/1024-row tables) run out of memory; kept below that
+        cases += [(2, 12, 200, 120, "view1", 0, 3), (3, 15, 200, 64, "owned", 0, 2), (4, 20, 130, 40, "owned", 0, 2), (6, 24, 130, 30, "owned", 0, 2)]
+    for nt, k, nc, ccol, kind, lo, hi in cases:
+        d = mat(3, nc, kind)
+        dd = dict(d)
+        dd.update({"NT": nt, "KBITS": k, "CCOL": ccol, "ROW_LO": lo, "ROW_HI": hi})
+        fn = "mzd_process_rows" + ("" if nt == 1 else str(nt))
+        tag = "nt%d.k%d.3x%d.c%d.%s.rows%d-%d" % (nt, k, nc, ccol, kind, lo, hi)
+        maxrows = 1 << ((k + nt - 1) // nt + 1)
+        gs.append(Group(gid="K.%s.%s" % (fn, tag), props=list(props), harness="k_prows.c", function=fn, layer="K", defines=dd, tus=TUS, assert_mode=True,
+                        unwind=max(maxrows, 66) + 2, bounded=True, bound_note="shape " + tag, shape=tag, timeout=900, mem_gb=24 if k > 20 else 12, slots=2 if k > 20 else 1,
+                        solver="--sat-solver cadical", cbmc_flags=["--arrays-uf-always"] if k > 20 else [],
+                        # several tables: the SSE2 _mzd_combine_N kernels with symbolic table-row pointers exhaust memory (measured, also in the design
+                        # round); the multi-table variants are decided in the scalar configuration
+                        config="host" if nt == 1 else "scalar"))
+    return gs
+
+
 def c02(tier):
     P = ("C02", "C10", "C12")
     gs = [G("C02", "ECH_NAIVE", "mzd_echelonize_naive", 3, 5, P, extra={"FULL": 1}), G("C02", "ECH_NAIVE", "mzd_echelonize_naive", 3, 5, P, kind="view1", extra={"FULL": 0}),
-          G("C02", "ECH_NAIVE", "mzd_echelonize_naive", 2, 20, P, extra={"FULL": 1}, timeout=1200),
+          G("C02", "ECH_NAIVE", "mzd_echelonize_naive", 4, 3, P, extra={"FULL": 0}, timeout=1200),
           G("C02", "TOP_ECH", "mzd_top_echelonize_m4ri", 3, 4, P, extra={"KPAR": 2}, timeout=1500),
           G("C02", "ECH_M4RI", "mzd_echelonize_m4ri", 3, 4, P, extra={"FULL": 1, "KPAR": 2}, timeout=1500)]
+    gs += prows_groups(tier)
     if tier == "thorough":
         gs += [G("C02", "ECH_M4RI", "mzd_echelonize_m4ri", 3, 5, P, extra={"FULL": 0, "KPAR": 1}, timeout=3600, slots=4),
                G("C02", "ECH_M4RI", "mzd_echelonize_m4ri", 3, 5, P, extra={"FULL": 1, "KPAR": 2}, timeout=3600, slots=4, config="scalar"),
@@ -50,7 +80,7 @@ def c02(tier):
 def c03(tier):
     P = ("C03", "C10", "C12")
     gs = [G("C03", "PLUQ_NAIVE", "_mzd_pluq_naive", 3, 5, P), G("C03", "PLE_NAIVE", "_mzd_ple_naive", 3, 5, P), G("C03", "PLUQ_NAIVE", "_mzd_pluq_naive", 4, 3, P, kind="view1"),
-          G("C03", "PLE_NAIVE", "_mzd_ple_naive", 2, 20, P, timeout=1500)]
+          G("C03", "PLE_NAIVE", "_mzd_ple_naive", 4, 3, P)]
     if tier == "thorough":
         gs += [G("C03", "PLUQ", "mzd_pluq", 2, 3, P, timeout=5400, slots=4), G("C03", "PLE", "mzd_ple", 2, 3, P, timeout=5400, slots=4),
                G("C03", "PLE", "mzd_ple", 2, 3, P, timeout=5400, slots=4, config="scalar")]
